@@ -15,6 +15,7 @@ RULE = ("Index expressions are generated from a grammar covering every mode of a
 BUDGET = {"quick": 24000, "thorough": 400000}
 FLOORS = {"quick": {"kind:none": 1000, "kind:ellipsis": 500, "len1_slice": 500, "singleton_mode": 1000, "operator": 1000,
                     "apply_mask": 1000, "M=1": 50, "bare": 300, "all_int": 300}}
+FUZZ = {"thorough": 80000}     # coverage-guided add-on stage (vt/fuzz.py)
 ASSUMPTIONS = ["slices are non-empty with step >= 1 (torch itself rejects negative steps); empty slices are not generated",
                "expressions the __getitem__ docstring rejects (short tuples without Ellipsis, Ellipsis in the middle, "
                "mixed int/slice operator pairs) belong to C18"]
@@ -283,3 +284,67 @@ def enumerate_cases():
                     if all(c["k"] == "slice" and c["v"] == [None, None, None] for c in combo[d - j:]) or j == 0:
                         cases.append({"what": "tensor", "x": x, "expr": [dict(c) for c in combo[:d - j]] + [{"k": "ellipsis"}], "form": "tuple"})
     return cases
+
+
+def from_bytes(fdp):
+    """Structured decoding of a libFuzzer byte string into a case (coverage-guided stage, vt/fuzz.py)."""
+    ci = fdp.ConsumeIntInRange
+    dts = list(gen.DTYPES_ALL)
+    what = ["tensor", "tensor", "operator", "mask"][ci(0, 3)]
+    d = ci(1, 3 if what == "operator" else 5)
+    N = [ci(1, 4 if what == "operator" else 5) for _ in range(d)]
+    R = [1] + [ci(1, 3) for _ in range(d - 1)] + [1]
+    x = {"N": N, "R": R, "dt": dts[ci(0, 3)], "mode": "int", "seed": ci(0, 2 ** 20), "amp": 2}
+
+    def sl(n):
+        a = ci(0, n - 1)
+        b = ci(a + 1, n)
+        step = [None, 1, 2, 3][ci(0, 3)]
+        ra, rb = ci(0, 2), ci(0, 2)
+        sa = a if ra == 0 else (a - n if ra == 1 else (None if a == 0 else a))
+        sb = None if (rb == 2 and b == n) else (b - n if (rb == 1 and b < n) else b)
+        return [sa, sb, step]
+    if what == "mask":
+        rows = [[ci(0, n - 1) for n in N] for _ in range(ci(0, 6))]
+        return {"what": what, "x": x, "rows": rows}
+    if what == "operator":
+        M = [ci(1, 4) for _ in range(d)]
+        x["M"] = M
+        rows, cols = [], []
+        for k in range(d):
+            kind = ci(0, 2)
+            if kind == 0:
+                rows.append({"k": "int", "v": ci(-M[k], M[k] - 1)})
+                cols.append({"k": "int", "v": ci(-N[k], N[k] - 1)})
+            elif kind == 1:
+                rows.append({"k": "slice", "v": sl(M[k])})
+                cols.append({"k": "slice", "v": sl(N[k])})
+            else:
+                rows.append({"k": "slice", "v": [None, None, None]})
+                cols.append({"k": "slice", "v": [None, None, None]})
+        for _ in range(ci(0, 2)):
+            pos = ci(0, len(rows))
+            rows.insert(pos, {"k": "none"})
+            cols.insert(pos, {"k": "none"})
+        return {"what": what, "x": x, "expr": rows + cols, "form": "tuple"}
+    items = []
+    for k in range(d):
+        kind = ci(0, 2)
+        if kind == 0:
+            items.append({"k": "int", "v": ci(-N[k], N[k] - 1)})
+        elif kind == 1:
+            items.append({"k": "slice", "v": sl(N[k])})
+        else:
+            items.append({"k": "slice", "v": [None, None, None]})
+    ell = ci(0, 3)
+    if ell == 1:
+        items = [{"k": "ellipsis"}] + items[ci(0, d):]
+    elif ell == 2:
+        items = items[:d - ci(0, d)] + [{"k": "ellipsis"}]
+    for _ in range(ci(0, 3)):
+        lo = 1 if ell == 1 else 0
+        hi = len(items) - 1 if ell == 2 else len(items)
+        if hi < lo:
+            break
+        items.insert(ci(lo, hi), {"k": "none"})
+    return {"what": what, "x": x, "expr": items, "form": "tuple"}
